@@ -63,13 +63,14 @@ class SBool(Sym):
 
 
 class SInt(Sym):
-    __slots__ = ("e", "dtype")
+    __slots__ = ("e", "dtype", "len_of")
 
     def __init__(self, e, dtype=None):
         if isinstance(e, int):
             e = z3.IntVal(e)
         self.e = e
         self.dtype = dtype
+        self.len_of = None
 
     def __repr__(self):
         return f"SInt({self.e})"
